@@ -15,7 +15,8 @@ Lemmas for `C06_writer`: ANSI-coloured text written through `tty_writer()`.
 * the command automaton: `ESC [ <0-9:;>* m` and the UTF-8 encoding of a scalar value other than `ESC` are read by
   the compiled command automaton as one complete (accepting, terminal) token with the tag of the SGR resp.
   character matcher (through the kernel-checked bisimulation with a small hand-written automaton,
-  `SurfProofs.CommandAutoBisim`), hence cut off by the tokenizer whatever follows (`tokenize_terminal`, C04);
+  `SurfProofs.CommandAutoBisim`), and so by every automaton that realises the command grammar (`cmd_token`);
+  hence cut off by the tokenizer whatever follows (`tokenize_terminal`, C04);
 * the payload of the two tokens (`sgr_face` of the parameter bytes; the character);
 * `tty_script`: the whole `TTYCellWriter` session on a script under any partition of its bytes.
 -/
@@ -334,24 +335,64 @@ theorem cmdAbs_run_utf8 (c : Nat) (hs : isScalar c = true) (hne : c ≠ 27) :
 
 /-- a word the abstract automaton reads into one of its two final states is read by the compiled command
     automaton into an accepting, terminal state with the corresponding least tag -/
-theorem cmd_token (w : List UInt8) (t : Nat) (ht : t = 8 ∨ t = 13)
+theorem cmd_token_model (w : List UInt8) (t : Nat) (ht : t = 8 ∨ t = 13)
     (hrun : runA cmdAbs.toAuto cmdAbs.start w = some t) :
     ∃ T, runA commandModelAuto.toAuto commandModelAuto.start w = some T ∧
       commandModelAuto.accepting T = true ∧ commandModelAuto.terminal T = true ∧
-      commandModelAuto.leastTag T = (cmdTags t).head? := by
+      commandModelAuto.tags T = cmdTags t := by
   obtain ⟨T, hT, hR⟩ := cmd_bisim.run_some w t hrun
-  refine ⟨T, hT, ?_, ?_, ?_⟩
+  refine ⟨T, hT, ?_, ?_, cmd_tags t T hR⟩
   · have := cmd_bisim.acc t T hR
     rw [← this]; rcases ht with rfl | rfl <;> rfl
   · have := cmd_bisim.term t T hR
     rw [← this]; rcases ht with rfl | rfl <;> rfl
-  · simp only [TAuto.leastTag, cmd_tags t T hR]
+
+/-- `terminal` is reported exactly for the states without successor (`NFA::compile`: the row of the state in
+    the DFA table is empty) -/
+def TermExact {σ : Type} (A : Auto σ) : Prop := ∀ q, A.terminal q = true ↔ ∀ b, A.step q b = none
+
+theorem TermExact.termOk {σ : Type} {A : Auto σ} (h : TermExact A) : A.TermOk := fun q hq => (h q).mp hq
+
+theorem commandModelAuto_termExact : TermExact commandModelAuto.toAuto :=
+  fun S => SurfProofs.C15.C15_terminal_iff commandRe.toNFA S
+
+/-- the same for every tagged automaton that realises the command grammar (same live words, accepting flags and
+    tag sets as the compiled automaton: `RealisesCommand`, C02) and reports `terminal` exactly for the states
+    without successor -/
+theorem cmd_token {σ : Type} (A : TAuto σ) (hR : RealisesCommand A) (hT : TermExact A.toAuto)
+    (w : List UInt8) (t : Nat) (ht : t = 8 ∨ t = 13) (hrun : runA cmdAbs.toAuto cmdAbs.start w = some t) :
+    ∃ q, runA A.toAuto A.start w = some q ∧ A.accepting q = true ∧ A.terminal q = true ∧
+      A.leastTag q = (cmdTags t).head? := by
+  obtain ⟨T, hT0, hacc, hterm, htags⟩ := cmd_token_model w t ht hrun
+  have hrunD : commandDFA.run w = some T := by
+    rw [← hT0, commandModelAuto_run]; rfl
+  have hr := hR w
+  rw [hrunD] at hr
+  cases hq : runA A.toAuto A.start w with
+  | none => rw [hq] at hr; simp at hr
+  | some q =>
+    rw [hq] at hr
+    simp only [Option.map_some, Option.some.injEq, Prod.mk.injEq] at hr
+    refine ⟨q, rfl, by rw [hr.1]; exact hacc, ?_, ?_⟩
+    · rw [hT q]
+      intro b
+      cases hs : A.step q b with
+      | none => rfl
+      | some q' =>
+        exfalso
+        have h1 : runA A.toAuto A.start (w ++ [b]) = some q' := runA_snoc A.toAuto A.start q q' w b hq hs
+        have h2 := hR (w ++ [b])
+        rw [h1, SurfProofs.Subset.run_append, hrunD] at h2
+        have h3 : commandDFA.transition T b = none := commandModelAuto_termOk T hterm b
+        simp [DFA.transitionMany, h3] at h2
+    · simp only [TAuto.leastTag, hr.2]
+      exact congrArg List.head? htags
 
 /-! ## payload of the two tokens -/
 
-theorem commandOfItem_sgr (ps : List Nat) (hps : ∀ b ∈ ps, b < 256) (T : DState)
-    (htag : commandModelAuto.leastTag T = some matcherBase) :
-    commandOfItem commandModelAuto (.tok (bytes (27 :: 91 :: (ps ++ [109]))) T) = .ok (.command (sgrFace ps)) := by
+theorem commandOfItem_sgr {σ : Type} (A : TAuto σ) (ps : List Nat) (hps : ∀ b ∈ ps, b < 256) (T : σ)
+    (htag : A.leastTag T = some matcherBase) :
+    commandOfItem A (.tok (bytes (27 :: 91 :: (ps ++ [109]))) T) = .ok (.command (sgrFace ps)) := by
   have hB : ∀ b ∈ (27 :: 91 :: (ps ++ [109])), b < 256 := by
     intro b hb
     simp only [List.mem_cons, List.mem_append, List.not_mem_nil, or_false] at hb
@@ -369,9 +410,9 @@ theorem commandOfItem_sgr (ps : List Nat) (hps : ∀ b ∈ ps, b < 256) (T : DSt
   rw [sub?_ok _ _ (by simp)]
   simp only [hslice]
 
-theorem commandOfItem_char (c : Nat) (hs : isScalar c = true) (T : DState)
-    (htag : commandModelAuto.leastTag T = some (matcherBase + 1)) :
-    commandOfItem commandModelAuto (.tok (bytes (utf8 c)) T) = .ok (.char c) := by
+theorem commandOfItem_char {σ : Type} (A : TAuto σ) (c : Nat) (hs : isScalar c = true) (T : σ)
+    (htag : A.leastTag T = some (matcherBase + 1)) :
+    commandOfItem A (.tok (bytes (utf8 c)) T) = .ok (.char c) := by
   have hlt := (SurfProofs.ProtoText.scalar_lt c hs).1
   have hnl : ¬ matcherBase + 1 < matcherBase := by omega
   have hsub : matcherBase + 1 - matcherBase = 1 := by omega
@@ -418,20 +459,21 @@ theorem tokenize_nil {σ} (A : Auto σ) : tokenize A [] = ([], []) := by
   rw [tokenize]; simp
 
 /-- one piece is tokenised into its own tokens whatever follows, and each token decodes to its event -/
-theorem piece_tokenize (p : Piece) (hp : p.Ok) (rest : List UInt8) :
-    ∃ items, tokenize commandModelAuto.toAuto (SurfModel.Grammar.bytes p.bytes ++ rest) =
-        (items ++ (tokenize commandModelAuto.toAuto rest).1, (tokenize commandModelAuto.toAuto rest).2) ∧
-      items.map (commandOfItem commandModelAuto) = p.events.map .ok := by
+theorem piece_tokenize {σ : Type} (A : TAuto σ) (hR : RealisesCommand A) (hT : TermExact A.toAuto)
+    (p : Piece) (hp : p.Ok) (rest : List UInt8) :
+    ∃ items, tokenize A.toAuto (SurfModel.Grammar.bytes p.bytes ++ rest) =
+        (items ++ (tokenize A.toAuto rest).1, (tokenize A.toAuto rest).2) ∧
+      items.map (commandOfItem A) = p.events.map .ok := by
   cases p with
   | sgr ps =>
-    obtain ⟨T, hrun, hacc, hterm, htag⟩ := cmd_token _ 13 (Or.inr rfl) (cmdAbs_run_sgr ps hp)
+    obtain ⟨T, hrun, hacc, hterm, htag⟩ := cmd_token A hR hT _ 13 (Or.inr rfl) (cmdAbs_run_sgr ps hp)
     have hne : SurfModel.Grammar.bytes (27 :: 91 :: (ps ++ [109])) ≠ [] := bytes_ne_nil _ (by simp)
     refine ⟨[.tok (SurfModel.Grammar.bytes (27 :: 91 :: (ps ++ [109]))) T], ?_, ?_⟩
     · simp only [Piece.bytes]
-      rw [SurfProofs.ProtoStream.tokenize_terminal _ commandModelAuto_termOk _ rest T hne hrun hacc hterm]
+      rw [SurfProofs.ProtoStream.tokenize_terminal _ hT.termOk _ rest T hne hrun hacc hterm]
       rfl
     · simp only [List.map_cons, List.map_nil, Piece.events]
-      rw [commandOfItem_sgr ps (fun b hb => by have := hp b hb; omega) T (by rw [htag]; rfl)]
+      rw [commandOfItem_sgr A ps (fun b hb => by have := hp b hb; omega) T (by rw [htag]; rfl)]
   | text cs =>
     induction cs generalizing rest with
     | nil =>
@@ -439,27 +481,203 @@ theorem piece_tokenize (p : Piece) (hp : p.Ok) (rest : List UInt8) :
       simp [Piece.bytes, SurfModel.Grammar.bytes]
     | cons c cs ih =>
       have hc := hp c (by simp)
-      obtain ⟨T, hrun, hacc, hterm, htag⟩ := cmd_token _ 8 (Or.inl rfl) (cmdAbs_run_utf8 c hc.1 hc.2)
+      obtain ⟨T, hrun, hacc, hterm, htag⟩ := cmd_token A hR hT _ 8 (Or.inl rfl) (cmdAbs_run_utf8 c hc.1 hc.2)
       obtain ⟨items, h1, h2⟩ := ih rest (fun x hx => hp x (by simp [hx]))
       have hne : SurfModel.Grammar.bytes (utf8 c) ≠ [] := bytes_ne_nil _ (utf8_ne_nil c)
       refine ⟨.tok (SurfModel.Grammar.bytes (utf8 c)) T :: items, ?_, ?_⟩
       · simp only [Piece.bytes, List.flatMap_cons, bytes_append, List.append_assoc] at h1 ⊢
-        rw [SurfProofs.ProtoStream.tokenize_terminal _ commandModelAuto_termOk _ _ T hne hrun hacc hterm, h1]
+        rw [SurfProofs.ProtoStream.tokenize_terminal _ hT.termOk _ _ T hne hrun hacc hterm, h1]
         rfl
       · simp only [List.map_cons, Piece.events] at h2 ⊢
-        rw [commandOfItem_char c hc.1 T (by rw [htag]; rfl), h2]
+        rw [commandOfItem_char A c hc.1 T (by rw [htag]; rfl), h2]
 
 /-- a whole script: every byte belongs to a token, nothing is left pending -/
-theorem script_tokenize (script : List Piece) (h : ∀ p ∈ script, p.Ok) :
-    ∃ items, tokenize commandModelAuto.toAuto (scriptBytes script) = (items, []) ∧
-      items.map (commandOfItem commandModelAuto) = (script.flatMap Piece.events).map .ok := by
+theorem script_tokenize {σ : Type} (A : TAuto σ) (hR : RealisesCommand A) (hT : TermExact A.toAuto)
+    (script : List Piece) (h : ∀ p ∈ script, p.Ok) :
+    ∃ items, tokenize A.toAuto (scriptBytes script) = (items, []) ∧
+      items.map (commandOfItem A) = (script.flatMap Piece.events).map .ok := by
   induction script with
   | nil => exact ⟨[], by simp [scriptBytes, SurfModel.Grammar.bytes, tokenize_nil], rfl⟩
   | cons p rest ih =>
     obtain ⟨items2, h1, h2⟩ := ih (fun x hx => h x (by simp [hx]))
-    obtain ⟨items1, g1, g2⟩ := piece_tokenize p (h p (by simp)) (scriptBytes rest)
+    obtain ⟨items1, g1, g2⟩ := piece_tokenize A hR hT p (h p (by simp)) (scriptBytes rest)
     refine ⟨items1 ++ items2, ?_, ?_⟩
     · simp only [scriptBytes, List.flatMap_cons, bytes_append] at g1 h1 ⊢
       rw [g1, h1]
     · simp only [List.map_append, List.flatMap_cons, g2, h2]
+
+/-! ## `TTYCellWriter` over the command decoder, and the reference run -/
+
+/-- what the loop of `TTYCellWriter::write` distinguishes (C09 model) -/
+abbrev WCmd := SurfModel.TextLayout.Cmd
+
+/-- the `match cmd` of `TTYCellWriter::write` on what `TTYCommandDecoder::decode` returns: a character is put,
+    a face modification `m` replaces the writer's face `f` by `m.apply(f)`, everything else is skipped
+    (`TerminalCommand::Image` cannot come out of the command decoder; a panic of the payload decoder —
+    excluded by `C02_no_panic_stream_command_model` — has no place in `Cmd` and would be skipped as well) -/
+def cmdOfEvent : Except Stop Event → WCmd
+  | .ok (.char c) => .char c
+  | .ok (.command m) => .face (liftFace (SurfModel.Sgr.apply m))
+  | _ => .other
+
+/-- the payload decoder of `tty_writer()`: `TTYCommandDecoder` on one item of the tokenizer, then the match -/
+def ttyInterp {σ : Type} (A : TAuto σ) (it : Item σ) : WCmd := cmdOfEvent (commandOfItem A it)
+
+/-- `put_char` for every character of a run, results ignored -/
+def putChars (w : Writer) : List Nat → Option Writer
+  | [] => some w
+  | c :: cs =>
+    match putChar w c with
+    | none => none
+    | some (w', _) => putChars w' cs
+
+/-- the reference SGR machine on an attribute state: the parameters are read as numbers, given their SGR
+    meaning (`sgrSem`), applied in order (`applySgr`); then what a cell face cannot hold is dropped
+    (`normAttr`: palette indices resolved to RGB, no underline colour) -/
+def refStep (ps : List Nat) (a : Attr) : Attr :=
+  match params? ps with
+  | some p => normAttr ((sgrSem p).foldl applySgr a)
+  | none => a
+
+/-- a colour of the attribute state as the writer holds it: opaque RGBA as the number `r g b 255` -/
+def colorOfAttr : Option ((Nat × Nat × Nat) ⊕ Nat) → Option Nat
+  | some (.inl (r, g, b)) => some (((r * 256 + g) * 256 + b) * 256 + 255)
+  | _ => none
+
+/-- the writer's face for an attribute state -/
+def faceOfAttr (a : Attr) : WFace :=
+  ⟨colorOfAttr a.fg, colorOfAttr a.bg,
+   a.under + 8 * (b2n a.bold + 2 * b2n a.italic + 4 * b2n a.blink + 8 * b2n a.reverse + 16 * b2n a.strike)⟩
+
+/-- **reference run of a script**: the attribute state is folded through the SGR sequences by the reference
+    machine; every text character is put (`put_char`) by a writer whose face is the face of the attribute
+    state reached by the sequences that precede it; `none` = `put_char` panicked -/
+def refRun (w : Writer) (a : Attr) : List Piece → Option Writer
+  | [] => some { w with face := faceOfAttr a }
+  | .sgr ps :: rest => refRun w (refStep ps a) rest
+  | .text cs :: rest =>
+    match putChars { w with face := faceOfAttr a } cs with
+    | none => none
+    | some w' => refRun w' a rest
+
+/-- the decoder and `FaceModify::apply` agree with the reference machine on this parameter string
+    (`C06_apply_sgr`: true of every string made of well-formed items) -/
+def SgrSem (ps : List Nat) : Prop :=
+  ∀ f : DFace, refApply ps f = some (attrOfDFace (SurfModel.Sgr.apply (sgrFace ps) f))
+
+theorem refStep_of_sem (ps : List Nat) (h : SgrSem ps) (d : DFace) :
+    refStep ps (attrOfDFace d) = attrOfDFace (SurfModel.Sgr.apply (sgrFace ps) d) := by
+  have := h d
+  unfold refApply at this
+  unfold refStep
+  cases hp : params? ps with
+  | none => rw [hp] at this; cases this
+  | some p =>
+    rw [hp] at this
+    simpa using this
+
+theorem faceOfAttr_pack (d : DFace) (h : FaceOk d) : faceOfAttr (attrOfDFace d) = packFace d := by
+  obtain ⟨fg, bg, under, bold, italic, blink, reverse, strike⟩ := d
+  obtain ⟨hfg, hbg, _⟩ := h
+  simp only at hfg hbg
+  have hc : ∀ o : Option Rgba, (∀ c, o = some c → COk c) →
+      colorOfAttr (o.map fun c => Sum.inl (c.r, c.g, c.b)) = o.map packColor := by
+    intro o ho
+    cases o with
+    | none => rfl
+    | some c =>
+      have := (ho c rfl).2.2.2
+      simp [colorOfAttr, packColor, this]
+  simp only [faceOfAttr, attrOfDFace, packFace, hc fg hfg, hc bg hbg]
+
+theorem putPlain_face (w : Writer) (cell : Cell) (w' : Writer) (b : Bool) (h : putPlain w cell = some (w', b)) :
+    w'.face = w.face := by
+  unfold putPlain at h
+  simp only at h
+  repeat' split at h
+  all_goals (cases h <;> rfl)
+
+theorem putChars_face (w : Writer) (cs : List Nat) (w' : Writer) (h : putChars w cs = some w') : w'.face = w.face := by
+  induction cs generalizing w with
+  | nil => simp [putChars] at h; rw [← h]
+  | cons c cs ih =>
+    simp only [putChars] at h
+    split at h
+    · cases h
+    · rename_i w1 b hp
+      rw [ih w1 h]
+      exact putPlain_face w _ w1 b hp
+
+theorem applyCmds_chars (w : Writer) (cs : List Nat) :
+    applyCmds w (cs.map SurfModel.TextLayout.Cmd.char) = putChars w cs := by
+  induction cs generalizing w with
+  | nil => rfl
+  | cons c cs ih =>
+    simp only [List.map_cons, applyCmds, applyCmd, putChars]
+    cases putChar w c with
+    | none => rfl
+    | some r => obtain ⟨w1, b⟩ := r; exact ih w1
+
+theorem refRun_face (w : Writer) (f : WFace) (a : Attr) (script : List Piece) :
+    refRun { w with face := f } a script = refRun w a script := by
+  induction script generalizing a with
+  | nil => rfl
+  | cons p rest ih =>
+    cases p with
+    | sgr ps => exact ih _
+    | text cs => rfl
+
+/-- the commands the decoder yields for a script, applied by the writer = the reference run -/
+theorem applyCmds_script (script : List Piece) (hsem : ∀ ps, Piece.sgr ps ∈ script → SgrSem ps)
+    (w : Writer) (d : DFace) (hd : FaceOk d) (hf : w.face = packFace d) :
+    applyCmds w (((script.flatMap Piece.events).map Except.ok).map cmdOfEvent) = refRun w (attrOfDFace d) script := by
+  induction script generalizing w d with
+  | nil =>
+    simp only [List.flatMap_nil, List.map_nil, applyCmds, refRun, faceOfAttr_pack d hd, ← hf]
+  | cons p rest ih =>
+    have hrest : ∀ ps, Piece.sgr ps ∈ rest → SgrSem ps := fun ps h => hsem ps (List.mem_cons_of_mem _ h)
+    cases p with
+    | sgr ps =>
+      have hs := hsem ps (by simp)
+      have hd' := apply_ok (sgrFace ps) d (sgrFace_ok ps) hd
+      simp only [List.flatMap_cons, Piece.events, List.map_cons, cmdOfEvent,
+        List.cons_append, List.nil_append, applyCmds, applyCmd, refRun]
+      rw [hf, liftFace_pack _ d hd, refStep_of_sem ps hs d,
+        ih hrest { w with face := packFace (SurfModel.Sgr.apply (sgrFace ps) d) } _ hd' rfl, refRun_face]
+    | text cs =>
+      have hw : { w with face := faceOfAttr (attrOfDFace d) } = w := by
+        rw [faceOfAttr_pack d hd, ← hf]
+      simp only [List.flatMap_cons, Piece.events, List.map_append, List.map_map, applyCmds_append, refRun, hw]
+      have hmap : List.map (cmdOfEvent ∘ Except.ok ∘ Event.char) cs = cs.map SurfModel.TextLayout.Cmd.char := by
+        apply List.map_congr_left; intro c _; rfl
+      rw [hmap, applyCmds_chars]
+      cases hp : putChars w cs with
+      | none => rfl
+      | some w1 =>
+        simp only [Option.bind_some]
+        have hf1 : w1.face = packFace d := by rw [putChars_face w cs w1 hp, hf]
+        have := ih hrest w1 d hd hf1
+        simpa [List.map_map] using this
+
+theorem stateOf_nil {σ} (A : Auto σ) : stateOf A [] = init A := rfl
+
+/-- **`tty_writer()` on a script, under every partition of its bytes.** -/
+theorem tty_script {σ : Type} (A : TAuto σ) (hR : RealisesCommand A) (hT : TermExact A.toAuto)
+    (script : List Piece) (hok : ∀ p ∈ script, p.Ok) (hsem : ∀ ps, Piece.sgr ps ∈ script → SgrSem ps)
+    (w : Writer) (d : DFace) (hd : FaceOk d) (hf : w.face = packFace d)
+    (chunks : List (List UInt8)) (hc : chunks.flatten = scriptBytes script) :
+    ttySession A.toAuto (ttyInterp A) w (init A.toAuto) chunks =
+      match refRun w (attrOfDFace d) script with
+      | none => .error .panic
+      | some w' => .ok (w', init A.toAuto) := by
+  obtain ⟨per, h1, h2⟩ := SurfProofs.C03.C03_tokenize_reads A.toAuto hT.termOk chunks
+  obtain ⟨items, g1, g2⟩ := script_tokenize A hR hT script hok
+  rw [hc, g1] at h1 h2
+  simp only at h1 h2
+  rw [stateOf_nil] at h1
+  rw [ttySession_items _ _ chunks w _ _ per h1, h2]
+  have : items.map (ttyInterp A) = ((script.flatMap Piece.events).map Except.ok).map cmdOfEvent := by
+    rw [← g2, List.map_map]; rfl
+  rw [this, applyCmds_script script hsem w d hd hf]
+  cases refRun w (attrOfDFace d) script <;> rfl
 end SurfProofs.Lemmas.SgrWriter
